@@ -84,6 +84,11 @@ class VertexList:
         # scenario 3: slave_patches is not None
         try:
             vertex = self.find_duplicated(point.position, slave_patches)
+
+            # an existing vertex is reused but this point can be projected to something else
+            missing = [label for label in point.projected_to if label not in vertex.projected_to]
+            if len(missing) > 0:
+                vertex.projected_to = [*vertex.projected_to, *missing]
         except VertexNotFoundError:
             vertex = Vertex.from_point(point, len(self.vertices))
             self.vertices.append(vertex)
